@@ -254,7 +254,7 @@ func (w *Workload) runDriven(st *store.ImmuStore, rng *rand.Rand) error {
 		wg.Add(1)
 		go func() {
 			defer wg.Done()
-			h, err := commitKVs(st, kvs, async, 20*time.Second)
+			h, err := commitKVs(st, kvs, async, 120*time.Second)
 			if err == nil {
 				w.Rec.Ack(h.ID)
 			}
@@ -359,7 +359,7 @@ func (w *Workload) runFree(st *store.ImmuStore, rng *rand.Rand) error {
 			defer wg.Done()
 			for i := 0; i < per; i++ {
 				kvs := randEntries(crng)
-				h, err := commitKVs(st, kvs, crng.Intn(3) == 0, 20*time.Second)
+				h, err := commitKVs(st, kvs, crng.Intn(3) == 0, 120*time.Second)
 				if err == nil {
 					w.Rec.Ack(h.ID)
 				} else if !errors.Is(err, store.ErrMaxActiveTransactionsLimitExceeded) {
